@@ -153,6 +153,13 @@ def tensor_getattr(I, t: Tensor, name):
         return Builtin("ndarray.sum", lambda I_, a, k: np_sum(I_, [t] + a, k))
     if name == "mean":
         return Builtin("ndarray.mean", lambda I_, a, k: np_mean(I_, [t] + a, k))
+    if name == "any":
+        def any_(I_, a, k):
+            acc = False
+            for v in t.data:
+                acc = ops.sym_or(acc, v if kind_of(v) == "bool" else ops.compare(I_, "NotEq", v, 0))
+            return acc
+        return Builtin("ndarray.any", any_)
     if name == "tolist":
         return Builtin("ndarray.tolist", lambda I_, a, k: t.tolist())
     if name == "array":   # ase Cell.array on a plain tensor model
@@ -427,6 +434,14 @@ def make_numpy(extra=None):
         vals = sorted(set(t.data))
         return Tensor((len(vals),), vals, t.dtype)
     A["unique"] = Builtin("np.unique", unique)
+
+    def fill_diagonal(I, a, k):
+        t, v = a[0], a[1]
+        if not isinstance(t, Tensor) or t.ndim != 2:
+            raise Unsupported("fill_diagonal of a non 2-d fixed array")
+        for i in range(min(t.shape)):
+            t.set((i, i), v)
+    A["fill_diagonal"] = Builtin("np.fill_diagonal", fill_diagonal)
 
     A["sum"] = Builtin("np.sum", np_sum)
     A["mean"] = Builtin("np.mean", np_mean)
